@@ -967,3 +967,83 @@ pub mod verif_hooks {
         s.doubles_rev.iter().cloned().collect()
     }
 }
+
+/// Verification hooks (only with `--cfg yamaquasi_verif`): the private relation filter
+/// `RelFilterSparse` (structured Gauss elimination before the dense linear algebra) run on a
+/// given list of relations, with a dump of its whole state (C18).
+#[cfg(yamaquasi_verif)]
+pub mod verif_hooks_filter {
+    use super::*;
+
+    pub struct FilterDump {
+        pub rows: Vec<Vec<(u32, i32)>>,
+        pub weight: Vec<(u32, u32)>,
+        pub nonzero: Vec<(u32, Vec<u32>)>,
+        pub removed: Vec<(u32, Vec<(u32, i32)>)>,
+        pub skip: Vec<u32>,
+        pub wmin: usize,
+        pub nextelims: Vec<u32>,
+        pub nonzero_rows: usize,
+        pub nonzero_coeffs: usize,
+    }
+
+    fn dump(r: &RelFilterSparse) -> FilterDump {
+        FilterDump {
+            rows: r.rows.clone(),
+            weight: r.weight.iter().map(|(&p, &w)| (p, w)).collect(),
+            nonzero: r.nonzero.iter().map(|(&p, v)| (p, v.clone())).collect(),
+            removed: r.removed.clone(),
+            skip: r.skip.iter().cloned().collect(),
+            wmin: r.wmin,
+            nextelims: r.nextelims.clone(),
+            nonzero_rows: r.nonzero_rows,
+            nonzero_coeffs: r.nonzero_coeffs,
+        }
+    }
+
+    /// `RelFilterSparse::new(rels)` followed by at most `steps` successful calls of `pivot_one`
+    /// (no trimming); returns the state and the number of successful calls.
+    pub fn vh_pivots(rels: Vec<CRelation>, steps: usize) -> (FilterDump, usize) {
+        let mut r = RelFilterSparse::new(rels);
+        let mut n = 0;
+        while n < steps {
+            if r.pivot_one().is_none() {
+                break;
+            }
+            n += 1;
+        }
+        (dump(&r), n)
+    }
+
+    /// The filtering loop of `group_structure_dense` (pivot_one, trim whenever the number of
+    /// columns is a multiple of 64 and there are too many rows), then `remove_duplicates`.
+    pub fn vh_filter_dense(rels: Vec<CRelation>) -> (FilterDump, usize) {
+        let mut r = RelFilterSparse::new(rels);
+        while let Some(_) = r.pivot_one() {
+            if r.weight.len() % 64 == 0 {
+                let nrows = r.nonzero_rows;
+                let nc = r.weight.len();
+                let want = nc + nc / 2 + 128;
+                if nrows > want {
+                    r.trim(nrows - want);
+                }
+            }
+        }
+        let dups = r.remove_duplicates();
+        (dump(&r), dups)
+    }
+
+    /// `rowsub(i, j, c)` on the freshly built filter; `None` = overflow reported by the code.
+    pub fn vh_rowsub(rels: Vec<CRelation>, i: usize, j: usize, c: i32) -> Option<FilterDump> {
+        let mut r = RelFilterSparse::new(rels);
+        r.rowsub(i, j, c)?;
+        Some(dump(&r))
+    }
+
+    /// `trim(count)` on the freshly built filter; returns the state and the value returned.
+    pub fn vh_trim(rels: Vec<CRelation>, count: usize) -> (FilterDump, usize) {
+        let mut r = RelFilterSparse::new(rels);
+        let t = r.trim(count);
+        (dump(&r), t)
+    }
+}
